@@ -38,10 +38,10 @@ StlMutations ==
                              v \in {"zero", "ff", "control", "accent-first", "accent-last", "rowbreaks", "full"}}
   \cup {[f |-> "size", v |-> v] : v \in {"empty", "gsi-short", "gsi-only", "tti-short", "tti-plus-one"}}
 
-\* Shapes: optional parts of a cue list (0 = absent / nil); rinl 2..5: two neighbouring runs whose WebVTT tag stacks share
+\* Shapes: optional parts of a cue list (0 = absent / nil; styles / regions 4: a map that also holds a nil entry); rinl 2..5: two neighbouring runs whose WebVTT tag stacks share
 \* a tag name while the class list of one is a strict prefix of the other's (either way round), or differ in depth
 Shapes ==
-  [meta : 0..1, styles : 0..3, regions : 0..3, iinl : 0..1, istyle : 0..2, iregion : 0..2, lines : 0..2, rinl : 0..5, rstyle : 0..1,
+  [meta : 0..1, styles : 0..4, regions : 0..4, iinl : 0..1, istyle : 0..2, iregion : 0..2, lines : 0..2, rinl : 0..5, rstyle : 0..1,
    text : 0..8, stlpos : 0..1, tsmap : 0..1]
 
 \* the normative statement, evaluated on every recorded call
